@@ -78,3 +78,11 @@ var probeCompact = []emitted{
 	hist(cNewEpic("E1"), cSet("i1", "title", "E1 renamed"), cSet("i1", "body", "epic body"), cCompact(), cCompact()),
 	hist(cNewTask("title", "A"), cNewTask("title", "B"), cNewTask("title", "C"), cCompact(), cClaim("a1"), cClaim("a2"), cClaim("a3")),
 }
+
+// edges around prune / compact / removal
+var probeEdges = []emitted{
+	hist(cNewTask("title", "A"), cNewTask("title", "B"), cSeq("i1", "i2"), cSet("i2", "state", "done"), cPrune(), cCompact()),
+	hist(cNewTask("title", "A"), cNewTask("title", "B"), cNewTask("title", "C"), cSeq("i1", "i2", "i3"), cSet("i2", "state", "canceled"), cPrune(), cSeqRm("i1", "i2")),
+	hist(cNewTask("title", "A"), cNewTask("title", "B"), cSeq("i1", "i2"), cSeq("i1", "i2"), cSeqRm("i1", "i2"), cSeqRm("i1", "i2"), cSeq("i2", "i1")),
+	hist(cNewEpic("E1"), cNewEpic("E2"), cSeq("i1", "i2"), cSeq("i2", "i1"), cNewTask("title", "A"), cSeq("i1", "i3"), cSeq("i3", "i1")),
+}
